@@ -183,3 +183,117 @@ example : errOf (build (.gate .or [.lbl 0, .lbl 1, .mdl .qubo [([2], 1)]])) = so
 example : errOf (build (.gate .not [.lbl 0, .lbl 1])) = some .type := by decide +kernel
 
 end Qv.C07
+
+/-!
+# C07, concrete entry points: `build_truth` instantiated for each public function of `qubovert.sat`
+
+`BUFFER, NOT, AND, NAND, OR, NOR, XOR, XNOR` — each on operands that are labels, plain dicts, model objects or
+gate expressions nested to any depth (`SExpr`), any arity ≥ 1.  Every statement is the docstring's truth table:
+"if the call returns `v`, then at every boolean assignment `x` the value of `v` is 1 when … and 0 otherwise".
+(Corollaries of `build_truth`.)
+-/
+namespace Qv.C07
+open Qv
+
+theorem truths_eq_map (x : Var → Rat) : ∀ args : List SExpr, truths x args = args.map (truth x)
+  | [] => rfl
+  | a :: r => by simp [truths, truths_eq_map x r]
+
+theorem all_truths (x : Var → Rat) (args : List SExpr) :
+    (truths x args).all id = decide (∀ a ∈ args, truth x a = true) := by
+  rw [truths_eq_map, Bool.eq_iff_iff]
+  simp [List.all_eq_true]
+
+theorem any_truths (x : Var → Rat) (args : List SExpr) :
+    (truths x args).any id = decide (∃ a ∈ args, truth x a = true) := by
+  rw [truths_eq_map, Bool.eq_iff_iff]
+  simp [List.any_eq_true]
+
+/-- `BUFFER(a)`: 1 iff `a` is true -/
+theorem BUFFER_truth (a : SExpr) (he : a.Ok) (x : Var → Rat) (hx : IsBool x) (v : Val)
+    (h : build (.gate .buffer [a]) = .ok v) : v.eval x = if truth x a then 1 else 0 := by
+  have := build_truth _ (show (SExpr.gate .buffer [a]).Ok from ⟨by simp, he, trivial⟩) x hx v h
+  simpa [truth, truths] using this
+
+/-- `NOT(a)`: 1 iff `a` is false -/
+theorem NOT_truth (a : SExpr) (he : a.Ok) (x : Var → Rat) (hx : IsBool x) (v : Val)
+    (h : build (.gate .not [a]) = .ok v) : v.eval x = if truth x a then 0 else 1 := by
+  have := build_truth _ (show (SExpr.gate .not [a]).Ok from ⟨by simp, he, trivial⟩) x hx v h
+  rw [this]
+  cases ht : truth x a <;> simp [truth, truths, ht]
+
+/-- `AND(*args)`: 1 iff every operand is true -/
+theorem AND_truth (args : List SExpr) (hne : args ≠ []) (he : SExpr.OkList args) (x : Var → Rat) (hx : IsBool x)
+    (v : Val) (h : build (.gate .and args) = .ok v) :
+    v.eval x = if ∀ a ∈ args, truth x a = true then 1 else 0 := by
+  have := build_truth _ (show (SExpr.gate .and args).Ok from ⟨hne, he⟩) x hx v h
+  rw [this]
+  simp only [truth, all_truths]
+  by_cases hall : ∀ a ∈ args, truth x a = true
+  · rw [decide_eq_true hall, if_pos hall]; simp
+  · rw [decide_eq_false hall, if_neg hall]; simp
+
+/-- `NAND(*args)`: 0 iff every operand is true -/
+theorem NAND_truth (args : List SExpr) (hne : args ≠ []) (he : SExpr.OkList args) (x : Var → Rat) (hx : IsBool x)
+    (v : Val) (h : build (.gate .nand args) = .ok v) :
+    v.eval x = if ∀ a ∈ args, truth x a = true then 0 else 1 := by
+  have := build_truth _ (show (SExpr.gate .nand args).Ok from ⟨hne, he⟩) x hx v h
+  rw [this]
+  simp only [truth, all_truths]
+  by_cases hall : ∀ a ∈ args, truth x a = true
+  · rw [decide_eq_true hall, if_pos hall]; simp
+  · rw [decide_eq_false hall, if_neg hall]; simp
+
+/-- `OR(*args)`: 1 iff some operand is true -/
+theorem OR_truth (args : List SExpr) (hne : args ≠ []) (he : SExpr.OkList args) (x : Var → Rat) (hx : IsBool x)
+    (v : Val) (h : build (.gate .or args) = .ok v) :
+    v.eval x = if ∃ a ∈ args, truth x a = true then 1 else 0 := by
+  have := build_truth _ (show (SExpr.gate .or args).Ok from ⟨hne, he⟩) x hx v h
+  rw [this]
+  simp only [truth, any_truths]
+  by_cases hex : ∃ a ∈ args, truth x a = true
+  · rw [decide_eq_true hex, if_pos hex]; simp
+  · rw [decide_eq_false hex, if_neg hex]; simp
+
+/-- `NOR(*args)`: 1 iff no operand is true -/
+theorem NOR_truth (args : List SExpr) (hne : args ≠ []) (he : SExpr.OkList args) (x : Var → Rat) (hx : IsBool x)
+    (v : Val) (h : build (.gate .nor args) = .ok v) :
+    v.eval x = if ∃ a ∈ args, truth x a = true then 0 else 1 := by
+  have := build_truth _ (show (SExpr.gate .nor args).Ok from ⟨hne, he⟩) x hx v h
+  rw [this]
+  simp only [truth, any_truths]
+  by_cases hex : ∃ a ∈ args, truth x a = true
+  · rw [decide_eq_true hex, if_pos hex]; simp
+  · rw [decide_eq_false hex, if_neg hex]; simp
+
+/-- `XOR(*args)`: 1 iff an odd number of operands is true -/
+theorem XOR_truth (args : List SExpr) (hne : args ≠ []) (he : SExpr.OkList args) (x : Var → Rat) (hx : IsBool x)
+    (v : Val) (h : build (.gate .xor args) = .ok v) :
+    v.eval x = if (args.filter (truth x)).length % 2 = 1 then 1 else 0 := by
+  have := build_truth _ (show (SExpr.gate .xor args).Ok from ⟨hne, he⟩) x hx v h
+  rw [this]
+  simp only [truth, truths_eq_map, List.filter_map, List.length_map, Function.comp, id, beq_iff_eq]
+  rfl
+
+/-- `XNOR(*args)`: 1 iff an even number of operands is true -/
+theorem XNOR_truth (args : List SExpr) (hne : args ≠ []) (he : SExpr.OkList args) (x : Var → Rat) (hx : IsBool x)
+    (v : Val) (h : build (.gate .xnor args) = .ok v) :
+    v.eval x = if (args.filter (truth x)).length % 2 = 0 then 1 else 0 := by
+  have := build_truth _ (show (SExpr.gate .xnor args).Ok from ⟨hne, he⟩) x hx v h
+  rw [this]
+  simp only [truth, truths_eq_map, List.filter_map, List.length_map, Function.comp, id, beq_iff_eq]
+  rfl
+
+/-! ### non-vacuity: a label, a model argument and a nested gate as operands of one `AND` -/
+
+example : SExpr.OkList [.lbl 0, .gate .or [.lbl 1, .mdl .pubo [([2], 1)]], .gate .not [.lbl 3]] := by
+  have b : B01 [([2], 1)] := by
+    intro x hx
+    rcases hx 2 with h | h <;> simp [eval, mon, h]
+  exact ⟨trivial, ⟨by simp, trivial, ⟨by decide, rfl, b⟩, trivial⟩, ⟨by simp, trivial, trivial⟩, trivial⟩
+
+example : ((build (.gate .and [.lbl 0, .gate .or [.lbl 1, .mdl .pubo [([2], 1)]], .gate .not [.lbl 3]])).toOption.map
+    (fun v => (v.eval (fun i => if i = 0 ∨ i = 2 then 1 else 0), v.eval (fun _ => 1)))) = some (1, 0) := by
+  decide +kernel
+
+end Qv.C07
